@@ -1,7 +1,7 @@
 (* SpecOrd.v — spec-level: the day-of-year of a date locates its month and its position in the month.
    For every day j of a calendar with label (y, m, d): the ordinal lies in month m's slice of the year,
    the offset in that slice is the day ordinal, and the shape's enumeration returns d at that offset. *)
-From JV Require Import Sem Gen Spec.
+From JV Require Import Sem Gen Spec SpecX.
 From JV.Proofs Require Import SpecFacts GapFacts Cal Cmp MonthGeom Shape Month MonthSpec SpecSums Walk.
 Import ListNotations.
 Open Scope Z_scope.
